@@ -652,7 +652,6 @@ M('seed6-C02-fortran-buffer', ['C02', 'C09'], MQ, "img  = frame.jpg if do_jpg el
 M('close-D37-shape-permission-survives', ['C03', 'C06'], Z, "                            do_send = False  # was decided while this client was still there (it may be a required output, or the only one of a balanced output), the next request decides again\n\n", "", ['C03.R6', 'C06.R10'])
 
 M('dlcache-D38-shape-handler-logs-raw-exception', ['C15'], DLC, "(logger.warning if file_exists else logger.error)(hide_uri_users_and_pwds(str(exc)))", "(logger.warning if file_exists else logger.error)(exc)", ['C15.R1'])
-M('bucket-D39-shape-netloc', ['C15'], II, "    bucket = parsed.netloc.rsplit('@', 1)[-1]  # a user:password@ part is not part of the bucket name (and must not end up in error messages)\n    key = parsed.path.lstrip('/')\n    \n    if not key:\n        raise ValueError(f'Invalid S3 URI", "    bucket = parsed.netloc\n    key = parsed.path.lstrip('/')\n    \n    if not key:\n        raise ValueError(f'Invalid S3 URI", ['C15.R1'])
 M('seed7-C15-exc-info-traceback', ['C15'], II, "logger.error(f\"Failed to list S3 images from {hide_uri_users_and_pwds(s3_uri)}: {hide_uri_users_and_pwds(str(e))}\")", "logger.error(f\"Failed to list S3 images from {hide_uri_users_and_pwds(s3_uri)}: {hide_uri_users_and_pwds(str(e))}\", exc_info=True)", ['C15.R1'])
 M('seed7-C10-backlink-ignores-gray', ['C10'], FR, "            self.__ro_rgb = new   = Frame(image := cv2.cvtColor(image, cv2.COLOR_RGB2BGR), self, 'RGB')\n", "            self.__ro_rgb = new   = Frame(image := cv2.cvtColor(image, cv2.COLOR_RGB2BGR), self, 'RGB')\n            new.__ro_bgr          = self\n", ['C10.R12'])
 M('cache-slot-wrong-format', ['C10'], FR, "                self.__ro_rgb = new\n", "                self.__ro_bgr = new\n", ['C10.R12'])
